@@ -305,7 +305,11 @@ func init() {
 								c.Explore(c20Case(lk, tl, end, true, bound+1))
 							}
 							if len(tl) <= 3 {
-								c.Explore(c20Case(lk, tl, end, true, bound))
+								b := bound
+								if len(tl) == 3 && bound > 1 {
+									b = bound - 1 // (three items at two deviations alone outlast the thorough budget)
+								}
+								c.Explore(c20Case(lk, tl, end, true, b))
 								for _, slow := range []time.Duration{lk.win / 2, lk.win, lk.win + u} {
 									if slow > 0 {
 										c.Explore(c20CaseSlow(lk, tl, end, true, bound-1, slow))
